@@ -14,6 +14,7 @@ import (
 
 	"github.com/ory/fosite"
 	"github.com/ory/fosite/compose"
+	"github.com/ory/fosite/handler/openid"
 	"github.com/ory/fosite/storage"
 )
 
@@ -21,12 +22,23 @@ import (
 // creates happens-before edges), so for this one clause operation pairs are released together behind a barrier in a
 // -race build. The Go race detector decides by happens-before, not by physical overlap.
 
+// raceSession: the session objects the application hands to the provider. The library's OWN session type is probed too
+// (its Clone decides whether two requests working on one stored record share maps).
+var raceSession = func(sub string) fosite.Session { return NewSimSession(sub) }
+
+func libSession(sub string) fosite.Session {
+	s := openid.NewDefaultSession()
+	s.Subject, s.Username = sub, sub
+	s.Claims.Subject = sub
+	return s
+}
+
 func raceReq(id string) *fosite.Request {
 	r := fosite.NewRequest()
 	r.RequestedAt = time.Date(2000, 1, 1, 0, 0, 0, 0, time.UTC)
 	r.ID = id
 	r.Client = &fosite.DefaultClient{ID: "c"}
-	r.Session = NewSimSession("u")
+	r.Session = raceSession("u")
 	r.Form = url.Values{"k": {"v"}}
 	r.GrantedScope = fosite.Arguments{"a"}
 	return r
@@ -158,7 +170,7 @@ func (a raceApp) token(form url.Values, basic *Basic) *Resp {
 	ctx := fosite.NewContext()
 	rec := httptest.NewRecorder()
 	r := newHTTPRequest("POST", "/token", nil, form, basic, "")
-	ar, err := a.p.NewAccessRequest(ctx, r, NewSimSession("u"))
+	ar, err := a.p.NewAccessRequest(ctx, r, raceSession("u"))
 	if err != nil {
 		a.p.WriteAccessError(ctx, rec, ar, err)
 		return finish(rec, err, nil)
@@ -187,7 +199,7 @@ func (a raceApp) authorize(q url.Values) *Resp {
 	for _, s := range ar.GetRequestedScopes() {
 		ar.GrantScope(s)
 	}
-	resp, err := a.p.NewAuthorizeResponse(ctx, ar, NewSimSession("u"))
+	resp, err := a.p.NewAuthorizeResponse(ctx, ar, raceSession("u"))
 	if err != nil {
 		a.p.WriteAuthorizeError(ctx, rec, ar, err)
 		return finish(rec, err, nil)
@@ -200,7 +212,7 @@ func (a raceApp) introspect(form url.Values, basic *Basic) {
 	ctx := fosite.NewContext()
 	rec := httptest.NewRecorder()
 	r := newHTTPRequest("POST", "/introspect", nil, form, basic, "")
-	ir, err := a.p.NewIntrospectionRequest(ctx, r, NewSimSession(""))
+	ir, err := a.p.NewIntrospectionRequest(ctx, r, raceSession(""))
 	if err != nil {
 		a.p.WriteIntrospectionError(ctx, rec, err)
 		return
@@ -224,7 +236,7 @@ func (a raceApp) device(form url.Values, basic *Basic) {
 		a.p.WriteAccessError(ctx, rec, dr, err)
 		return
 	}
-	resp, err := a.p.NewDeviceResponse(ctx, dr, NewSimSession(""))
+	resp, err := a.p.NewDeviceResponse(ctx, dr, raceSession(""))
 	if err != nil {
 		a.p.WriteAccessError(ctx, rec, dr, err)
 		return
@@ -239,7 +251,7 @@ func (a raceApp) deviceResp(form url.Values, basic *Basic) string {
 	if err != nil {
 		return ""
 	}
-	resp, err := a.p.NewDeviceResponse(ctx, dr, NewSimSession(""))
+	resp, err := a.p.NewDeviceResponse(ctx, dr, raceSession(""))
 	if err != nil {
 		return ""
 	}
@@ -255,7 +267,7 @@ func (a raceApp) par(form url.Values, basic *Basic) {
 		a.p.WritePushedAuthorizeError(ctx, rec, ar, err)
 		return
 	}
-	resp, err := a.p.NewPushedAuthorizeResponse(ctx, ar, NewSimSession(""))
+	resp, err := a.p.NewPushedAuthorizeResponse(ctx, ar, raceSession(""))
 	if err != nil {
 		a.p.WritePushedAuthorizeError(ctx, rec, ar, err)
 		return
@@ -273,8 +285,13 @@ func TestRaceProviderPairs(t *testing.T) {
 	HashSecret("s0")
 	HashSecret("s1")
 	ops := []string{"client_credentials", "authorize", "redeem", "refresh", "introspect", "revoke", "password", "device_authz", "par_push", "device_token"}
-	fmt.Printf("RACE-PROBE provider ops=%d pairs=%d configs=3\n", len(ops), len(ops)*(len(ops)+1)/2)
-	for _, cfgKind := range []string{"default-constructed", "fully-populated", "shared-credentials"} {
+	fmt.Printf("RACE-PROBE provider ops=%d pairs=%d configs=4\n", len(ops), len(ops)*(len(ops)+1)/2)
+	defer func() { raceSession = func(sub string) fosite.Session { return NewSimSession(sub) } }()
+	for _, cfgKind := range []string{"default-constructed", "fully-populated", "shared-credentials", "library-session"} {
+		raceSession = func(sub string) fosite.Session { return NewSimSession(sub) }
+		if cfgKind == "library-session" {
+			raceSession = libSession // openid.DefaultSession, both goroutines on the same credentials
+		}
 		for i := 0; i < len(ops); i++ {
 			for j := i; j < len(ops); j++ {
 				a, b := ops[i], ops[j]
@@ -317,6 +334,10 @@ func TestRaceProviderPairs(t *testing.T) {
 									if ss, ok := dr.GetSession().(*SimSession); ok {
 										ss.SetSubject("u")
 									}
+									if ls, ok := dr.GetSession().(*openid.DefaultSession); ok {
+										ls.Subject = "u"
+										ls.Claims.Subject = "u"
+									}
 								}
 							}
 							cr[g].dc = dres
@@ -325,7 +346,7 @@ func TestRaceProviderPairs(t *testing.T) {
 							cfg.ScopeStrategy, cfg.AudienceMatchingStrategy, cfg.ClientSecretsHasher = nil, nil, nil // the prefix defaulted them; a fresh process starts with nil
 						}
 						run := func(g int, op string) {
-							if cfgKind == "shared-credentials" {
+							if cfgKind == "shared-credentials" || cfgKind == "library-session" {
 								g = 0 // both goroutines act as the same client on the SAME code / refresh token / access token
 							}
 							cs := &k.Clients[g]
